@@ -122,3 +122,77 @@ Qed.
 (* the squared epsilon of the property's quantifier (epsilon >= 0, not NaN) is >= 0 *)
 Lemma MAX_DBL_not_nan : not_nan MAX_DBL = true.
 Proof. reflexivity. Qed.
+
+(* ------------------------------------------------------------------ SimplifyPath's clamped squared tolerance *)
+(* epsSqr = (std::min)(Sqr(epsilon), MAX_DBL * 0.5) is below MAX_DBL, the pseudo distance that protects the ends of an
+   open path, for every epsilon whose square is not NaN (every epsilon other than NaN, +inf included) *)
+Lemma clamp_lt_max (x : float) :
+  (0 <=? x)%float = true -> (HALF_MAX_DBL <? x)%float = false -> (x <? MAX_DBL)%float = true.
+Proof.
+  rewrite leb_spec, !ltb_spec.
+  replace (Prim2SF 0) with (S754_zero false) by (vm_compute; reflexivity).
+  replace (Prim2SF HALF_MAX_DBL) with (S754_finite false 9007199254740991 970) by (vm_compute; reflexivity).
+  replace (Prim2SF MAX_DBL) with (S754_finite false 9007199254740991 971) by (vm_compute; reflexivity).
+  destruct (Prim2SF x) as [s|s| |s m e]; unfold SFleb, SFltb; cbn [SFcompare];
+    try destruct s; try discriminate; try reflexivity.
+  intros _. destruct (Z.compare_spec 970 e) as [He|He|He]; try discriminate.
+  - subst e. reflexivity.
+  - intros _. replace (e ?= 971) with Lt by (symmetry; apply Z.compare_lt_iff; lia). reflexivity.
+Qed.
+
+Lemma simp_eps_sqr_lt_max eps :
+  (0 <=? fsqr eps)%float = true -> (simp_eps_sqr eps <? MAX_DBL)%float = true.
+Proof.
+  intros H. unfold simp_eps_sqr. destruct (HALF_MAX_DBL <? fsqr eps)%float eqn:E.
+  - vm_compute. reflexivity.
+  - apply clamp_lt_max; assumption.
+Qed.
+
+(* the clamp does not change the tolerance unless it exceeds MAX_DBL / 2 = 8.98e307 (epsilon > 9.48e153) *)
+Lemma simp_eps_sqr_id eps : (HALF_MAX_DBL <? fsqr eps)%float = false -> simp_eps_sqr eps = fsqr eps.
+Proof. intros H. unfold simp_eps_sqr. rewrite H. reflexivity. Qed.
+
+(* ------------------------------------------------------------------ facts used by the RDP distance bound *)
+Local Open Scope float_scope.
+
+Lemma SFsub_diag (x : spec_float) :
+  SF64sub x x = S754_zero false \/ SF64sub x x = S754_nan.
+Proof.
+  unfold SF64sub. destruct x as [s|s| |s m e]; cbn [SFsub].
+  - left. destruct s; reflexivity.
+  - right. destruct s; reflexivity.
+  - right. reflexivity.
+  - left. rewrite Z.sub_diag. reflexivity.
+Qed.
+
+Lemma sqr_sub_diag_div (t y : float) :
+  let r := (fsqr (t - t) / y)%float in not_nan r = true -> (r <=? 0)%float = true.
+Proof.
+  intros r. unfold not_nan, r, fsqr. rewrite eqb_spec, leb_spec, div_spec, mul_spec, sub_spec.
+  replace (Prim2SF 0) with (S754_zero false) by (vm_compute; reflexivity).
+  destruct (SFsub_diag (Prim2SF t)) as [-> | ->].
+  - unfold SF64mul, SF64div. cbn [SFmul xorb]. destruct (Prim2SF y) as [s|s| |s m e]; cbn [SFdiv];
+      unfold SFeqb, SFleb; cbn [SFcompare]; intros H; try discriminate H; reflexivity.
+  - unfold SF64mul, SF64div. cbn [SFmul SFdiv]. unfold SFeqb; cbn [SFcompare]. discriminate.
+Qed.
+
+Lemma leb_refl_not_nan x : not_nan x = true -> (x <=? x)%float = true.
+Proof.
+  intros H. destruct (x <=? x)%float eqn:E; [reflexivity|]. pose proof (leb_total x x H H E) as E'. congruence.
+Qed.
+
+Lemma leb_refl_inv x : (x <=? x)%float = true -> not_nan x = true.
+Proof.
+  unfold not_nan. rewrite leb_spec, eqb_spec. unfold SFleb, SFeqb.
+  destruct (SFcompare (Prim2SF x) (Prim2SF x)) as [[| |]|] eqn:E; try discriminate; try reflexivity.
+  intros _. exfalso. revert E. destruct (Prim2SF x) as [s|s| |s m e]; cbn [SFcompare]; try destruct s; try discriminate.
+  - rewrite Z.compare_refl, Pos.compare_cont_refl. discriminate.
+  - rewrite Z.compare_refl. rewrite Pos.compare_cont_refl. discriminate.
+Qed.
+
+Lemma perp_d2_same_end x a : not_nan (perp_d2 x a x) = true -> (perp_d2 x a x <=? 0)%float = true.
+Proof.
+  unfold perp_d2.
+  destruct ((Z2Ff (px x - px a) =? 0) && (Z2Ff (py x - py a) =? 0))%float; [reflexivity|].
+  apply sqr_sub_diag_div.
+Qed.
